@@ -141,6 +141,7 @@ FR_ASSUME = ("specs/FieldRules.tla: which struct fields are members of the JSON 
 WITNESSES = {
     "array1-of-pointer-shaped": dict(type=dict(leaf="int", steps=["ptr", "array1"]), mode="typical", variant="marshal|direct"),
     "top-level-pointer-to-pointer-to-pointer-shaped": dict(type=dict(leaf="int", steps=["map_s", "ptr"]), mode="typical", variant="marshal|ptr"),
+    "nested-pointer-to-pointer": dict(type=dict(leaf="Time", steps=["ptr", "ptr", "slice"]), mode="typical", variant="marshal|direct"),
 }
 
 
@@ -230,7 +231,7 @@ def run(tier, scratch, record=False):
     return run_typed(PROP, "C01", tier, scratch, record, "exploration",
                      "%(ntypes)d type constructions emitted by TLC x %(nmodes)d value modes x 7 variants (Marshal / MarshalIndent / Encoder "
                      "without HTML escaping; value reached directly, behind a pointer, inside interface{}); non-trivial = distinct "
-                     "(type, mode) pairs; the two memory-unsafe type families are excluded and represented by isolated witnesses",
+                     "(type, mode) pairs; the three memory-unsafe type families are excluded and represented by isolated witnesses",
                      ASSUME + [FR_ASSUME, FT_ASSUME], describe, with_witnesses=True)
 
 
